@@ -82,6 +82,23 @@ var pureList = []pureSpec{
 	{"openflow13", "", "NewLearnHeaderLoadFromField"},
 	{"openflow13", "", "NewLearnHeaderOutputFromField"},
 	{"protocol", "VLAN", "Len"},
+	// straight-line encoders (round T1c): the byte-builder idiom, see encStmt and OFV/Go/Buf.lean; Props/C03d.lean proves the hand
+	// model equal to each of these. Also inside the subset (OFVEXTRACT_PROBE=1 lists them) but not yet tied by a theorem: InstrGotoTable,
+	// InstrWriteMetadata, the byte-array match payloads, the stats records, NXActionRegLoad/RegMove/Resubmit(Table)/OutputReg/CTClear/DecTTL/
+	// Controller, NXLearnSpecField, ByteArrayField, SwitchConfig, PortMod, protocol.VLAN.
+	{"common", "Header", "MarshalBinary"}, {"common", "HelloElemHeader", "MarshalBinary"},
+	{"openflow13", "ActionHeader", "MarshalBinary"}, {"openflow13", "ActionOutput", "MarshalBinary"}, {"openflow13", "ActionSetqueue", "MarshalBinary"},
+	{"openflow13", "ActionGroup", "MarshalBinary"}, {"openflow13", "ActionMplsTtl", "MarshalBinary"}, {"openflow13", "ActionDecNwTtl", "MarshalBinary"},
+	{"openflow13", "ActionNwTtl", "MarshalBinary"}, {"openflow13", "ActionPush", "MarshalBinary"}, {"openflow13", "ActionPopVlan", "MarshalBinary"},
+	{"openflow13", "ActionPopMpls", "MarshalBinary"}, {"openflow13", "BundleControl", "MarshalBinary"}, {"openflow13", "InstrHeader", "MarshalBinary"},
+	{"openflow13", "InstrMeter", "MarshalBinary"}, {"openflow13", "InPortField", "MarshalBinary"}, {"openflow13", "EthTypeField", "MarshalBinary"},
+	{"openflow13", "VlanIdField", "MarshalBinary"}, {"openflow13", "MplsLabelField", "MarshalBinary"}, {"openflow13", "MplsBosField", "MarshalBinary"},
+	{"openflow13", "IPv6FlowLabelField", "MarshalBinary"}, {"openflow13", "IpProtoField", "MarshalBinary"}, {"openflow13", "IpDscpField", "MarshalBinary"},
+	{"openflow13", "TunnelIdField", "MarshalBinary"}, {"openflow13", "MetadataField", "MarshalBinary"}, {"openflow13", "PortField", "MarshalBinary"},
+	{"openflow13", "TcpFlagsField", "MarshalBinary"}, {"openflow13", "ArpOperField", "MarshalBinary"}, {"openflow13", "ActsetOutputField", "MarshalBinary"},
+	{"openflow13", "IcmpTypeField", "MarshalBinary"}, {"openflow13", "IcmpCodeField", "MarshalBinary"}, {"openflow13", "Uint16Message", "MarshalBinary"},
+	{"openflow13", "Uint32Message", "MarshalBinary"}, {"openflow13", "NXActionHeader", "MarshalBinary"}, {"openflow13", "NXActionConjunction", "MarshalBinary"},
+	{"openflow13", "ControllerID", "MarshalBinary"}, {"openflow13", "TLVTableMap", "MarshalBinary"},
 }
 
 type unsupported struct{ msg string }
@@ -103,6 +120,29 @@ type ptr struct {
 	depth    int
 	methods  map[string]*methodInfo // methods already translated: Type.name -> shape
 	nested   map[string]map[string]string // struct name -> struct-valued fields that translated code reads -> Lean type
+	enc      bool                         // translating a straight-line encoder: func (r *T) MarshalBinary() ([]byte, error)
+	cursors  map[string]bool              // encoder mode: local ints used as write cursors (Nat)
+	fresh    map[string]bool              // encoder mode: byte locals whose last assignment was make (cap = len)
+	bytesRes string                       // encoder mode: name of the named []byte result ("" if unnamed)
+}
+
+func isBytesType(ty types.Type) bool {
+	var el types.Type
+	switch u := ty.Underlying().(type) {
+	case *types.Slice:
+		el = u.Elem()
+	case *types.Array:
+		el = u.Elem()
+	default:
+		return false
+	}
+	b, ok := el.Underlying().(*types.Basic)
+	return ok && b.Kind() == types.Uint8
+}
+
+func isErrorType(ty types.Type) bool {
+	n, ok := ty.(*types.Named)
+	return ok && n.Obj().Pkg() == nil && n.Obj().Name() == "error"
 }
 
 // allPtr: translation state of the packages processed so far (pkgNames order), by package name. A struct or method of an
@@ -145,7 +185,12 @@ func (t *ptr) fieldPath(ty types.Type, index []int) (string, types.Type) {
 		}
 		o.structs[name] = st
 		f := st.Field(ix)
-		if _, isInt := leanIntType(f.Type()); !isInt {
+		if isBytesType(f.Type()) {
+			if o.nested[name] == nil {
+				o.nested[name] = map[string]string{}
+			}
+			o.nested[name][f.Name()] = "List UInt8"
+		} else if _, isInt := leanIntType(f.Type()); !isInt {
 			ln, ok := o.structName(f.Type())
 			if !ok {
 				bad("field %s of non-scalar type %s", f.Name(), f.Type())
@@ -279,6 +324,9 @@ func (t *ptr) expr(e ast.Expr) string {
 		if obj.Parent() == t.p.Types.Scope() {
 			bad("package-level variable %s", x.Name)
 		}
+		if t.cursors[x.Name] {
+			bad("cursor %s used as a value", x.Name)
+		}
 		return lname(x.Name)
 	case *ast.SelectorExpr:
 		// receiver or struct-valued local . field
@@ -290,7 +338,7 @@ func (t *ptr) expr(e ast.Expr) string {
 			bad("selector base type %s", t.info.TypeOf(x.X))
 		}
 		path, ft := t.fieldPath(t.info.TypeOf(x.X), sel.Index())
-		if _, ok := leanIntType(ft); !ok {
+		if _, ok := leanIntType(ft); !ok && !isBytesType(ft) {
 			if _, ok := t.structName(ft); !ok {
 				bad("field %s of non-scalar type %s", x.Sel.Name, sel.Type())
 			}
@@ -481,7 +529,7 @@ func (t *ptr) call(c *ast.CallExpr) string {
 				} else {
 					m = o.methods[bare+"."+se.Sel.Name] // a method of an earlier package: only if already translated
 				}
-				if m != nil && !m.mutates && m.nres == 1 {
+				if m != nil && !m.mutates && m.nres == 1 && !m.enc {
 					var args []string
 					for _, a := range c.Args {
 						args = append(args, t.expr(a))
@@ -533,6 +581,31 @@ func (t *ptr) result(vals []string) string {
 }
 
 func (t *ptr) ret(r *ast.ReturnStmt) string {
+	if t.enc {
+		name := t.bytesRes
+		if len(r.Results) == 2 {
+			id, ok := r.Results[0].(*ast.Ident)
+			if !ok || !isBytesType(t.info.TypeOf(id)) {
+				bad("encoder returns %s", nodeString(t.p.Fset, r.Results[0]))
+			}
+			// the error result is nil: an encoder in the subset only takes errors from encoders in the subset
+			switch e := r.Results[1].(type) {
+			case *ast.Ident:
+				if e.Name != "nil" && e.Name != "err" {
+					bad("encoder returns error %s", e.Name)
+				}
+			default:
+				bad("encoder returns error %s", nodeString(t.p.Fset, e))
+			}
+			name = id.Name
+		} else if len(r.Results) != 0 || name == "" {
+			bad("encoder return shape")
+		}
+		if t.mutates {
+			return "pure (" + lname(name) + ", " + t.recvName + ")"
+		}
+		return "pure " + lname(name)
+	}
 	if len(r.Results) == 0 {
 		var vals []string
 		for _, v := range t.results {
@@ -680,6 +753,11 @@ func (t *ptr) block(stmts []ast.Stmt, k func() string) string {
 	}
 	s := stmts[0]
 	rest := func() string { return t.block(stmts[1:], k) }
+	if t.enc {
+		if out, ok := t.encStmt(s); ok {
+			return out + rest()
+		}
+	}
 	switch x := s.(type) {
 	case *ast.ReturnStmt:
 		return t.ret(x)
@@ -811,6 +889,7 @@ func (t *ptr) block(stmts []ast.Stmt, k func() string) string {
 type methodInfo struct {
 	mutates bool
 	nres    int
+	enc     bool
 }
 
 // structLean: Lean name of the struct projection of a Go type name of this package
@@ -832,7 +911,7 @@ func (t *ptr) methodOnDemand(recv, name string) *methodInfo {
 	saved := *t
 	t.depth++
 	d, err := t.translate(fd, pureSpec{t.p.Types.Name(), recv, name})
-	mi := &methodInfo{mutates: t.mutates}
+	mi := &methodInfo{mutates: t.mutates, enc: t.enc}
 	if fd.Type.Results != nil {
 		mi.nres = fd.Type.Results.NumFields()
 	}
@@ -914,6 +993,28 @@ func (t *ptr) translate(fd *ast.FuncDecl, sp pureSpec) (def string, err error) {
 		}
 	}()
 	t.recvObj, t.recvName, t.recvType, t.mutates, t.results = nil, "", "", false, nil
+	t.enc, t.cursors, t.fresh, t.bytesRes = false, map[string]bool{}, map[string]bool{}, ""
+	if rs := fd.Type.Results; fd.Recv != nil && fd.Type.Params.NumFields() == 0 && rs != nil && rs.NumFields() == 2 {
+		var tys []types.Type
+		var names []string
+		for _, f := range rs.List {
+			k := len(f.Names)
+			if k == 0 {
+				k = 1
+				names = append(names, "")
+			}
+			for i := 0; i < k; i++ {
+				tys = append(tys, t.info.TypeOf(f.Type))
+			}
+			for _, n := range f.Names {
+				names = append(names, n.Name)
+			}
+		}
+		if len(tys) == 2 && isBytesType(tys[0]) && isErrorType(tys[1]) {
+			t.enc = true
+			t.bytesRes = names[0]
+		}
+	}
 	var params []string
 	if fd.Recv != nil {
 		r := fd.Recv.List[0]
@@ -965,6 +1066,18 @@ func (t *ptr) translate(fd *ast.FuncDecl, sp pureSpec) (def string, err error) {
 	}
 	var resTypes []string
 	pre := ""
+	if t.enc {
+		rt := "(List UInt8)"
+		if t.mutates {
+			rt = "(List UInt8 × " + t.recvType + ")"
+		}
+		pre := ""
+		if t.bytesRes != "" {
+			pre = fmt.Sprintf("let %s : List UInt8 := []\n", lname(t.bytesRes))
+		}
+		body := "do\n" + pre + t.block(fd.Body.List, nil)
+		return fmt.Sprintf("def %s.%s %s : Go.Res %s :=\n%s\n", sp.recv, lname(sp.name), strings.Join(params, " "), rt, indent(body)), nil
+	}
 	if fd.Type.Results != nil {
 		for _, f := range fd.Type.Results.List {
 			lt := t.leanType(t.info.TypeOf(f.Type))
@@ -997,9 +1110,281 @@ func (t *ptr) translate(fd *ast.FuncDecl, sp pureSpec) (def string, err error) {
 	return fmt.Sprintf("def %s %s : %s :=\n%s\n", name, strings.Join(params, " "), rt, indent(body)), nil
 }
 
+// ---- straight-line encoders (byte-builder idiom) ------------------------------------------------
+
+// natExpr: a non-negative integer expression (buffer size, offset, cursor increment) as a Lean Nat.
+func (t *ptr) natExpr(e ast.Expr) string {
+	tv := t.info.Types[e]
+	if tv.Value != nil && tv.Value.Kind() == constant.Int {
+		if constant.Sign(tv.Value) < 0 {
+			bad("negative size/offset")
+		}
+		return tv.Value.ExactString()
+	}
+	switch x := e.(type) {
+	case *ast.ParenExpr:
+		return t.natExpr(x.X)
+	case *ast.Ident:
+		if t.cursors[x.Name] {
+			return lname(x.Name)
+		}
+	case *ast.BinaryExpr:
+		if x.Op == token.ADD {
+			return "(" + t.natExpr(x.X) + " + " + t.natExpr(x.Y) + ")"
+		}
+	case *ast.CallExpr:
+		if id, ok := x.Fun.(*ast.Ident); ok && id.Name == "len" && len(x.Args) == 1 {
+			if _, isB := t.info.Uses[id].(*types.Builtin); isB {
+				return "(" + t.bytesExpr(x.Args[0]) + ").length"
+			}
+		}
+		if ftv, ok := t.info.Types[x.Fun]; ok && ftv.IsType() && len(x.Args) == 1 {
+			// int(u) of an unsigned value: exact
+			if lt, ok := leanIntType(t.info.TypeOf(x.Args[0])); ok && width(lt) != "" {
+				if to, ok := leanIntType(ftv.Type); ok && (to == "Int64" || to == "UInt64") && width(lt) != "64" {
+					return t.natExpr(x.Args[0])
+				}
+			}
+		}
+	}
+	if lt, ok := leanIntType(tv.Type); ok && width(lt) != "" {
+		return "(" + t.expr(e) + ").toNat"
+	}
+	bad("size/offset expression %s", nodeString(t.p.Fset, e))
+	return ""
+}
+
+// bytesExpr: a []byte value that is read: a local, a byte field of a struct, or one of those re-sliced from 0 (x[0:], x[:]).
+func (t *ptr) bytesExpr(e ast.Expr) string {
+	switch x := e.(type) {
+	case *ast.ParenExpr:
+		return t.bytesExpr(x.X)
+	case *ast.SliceExpr:
+		if x.High == nil && x.Max == nil && isBytesType(t.info.TypeOf(x.X)) {
+			if x.Low == nil {
+				return t.bytesExpr(x.X)
+			}
+			if v := t.info.Types[x.Low].Value; v != nil && constant.Sign(v) == 0 {
+				return t.bytesExpr(x.X)
+			}
+		}
+	case *ast.Ident:
+		if v, ok := t.info.ObjectOf(x).(*types.Var); ok && isBytesType(v.Type()) && v.Parent() != t.p.Types.Scope() {
+			return lname(x.Name)
+		}
+	case *ast.SelectorExpr:
+		if isBytesType(t.info.TypeOf(x)) {
+			return t.expr(x)
+		}
+	}
+	bad("byte-slice expression %s", nodeString(t.p.Fset, e))
+	return ""
+}
+
+// target: the destination of a write: x, x[lo:], x[lo:hi], x[:hi] with x a local buffer.
+func (t *ptr) target(e ast.Expr) (name, lo, hi string) {
+	lo = "0"
+	if se, ok := e.(*ast.SliceExpr); ok {
+		if se.Max != nil {
+			bad("3-index slice")
+		}
+		if se.Low != nil {
+			lo = t.natExpr(se.Low)
+		}
+		if se.High != nil {
+			hi = t.natExpr(se.High)
+		}
+		e = se.X
+	}
+	id, ok := e.(*ast.Ident)
+	if !ok {
+		bad("write target %s", nodeString(t.p.Fset, e))
+	}
+	v, ok := t.info.ObjectOf(id).(*types.Var)
+	if !ok || !isBytesType(v.Type()) || v.Parent() == t.p.Types.Scope() {
+		bad("write target %s", id.Name)
+	}
+	if _, isSlice := v.Type().Underlying().(*types.Slice); !isSlice {
+		bad("write target %s is an array", id.Name)
+	}
+	if hi != "" && !t.fresh[id.Name] {
+		bad("%s[lo:hi] of a buffer whose capacity is unknown", id.Name)
+	}
+	return lname(id.Name), lo, hi
+}
+
+func builtinCall(info *types.Info, c *ast.CallExpr, name string) bool {
+	id, ok := c.Fun.(*ast.Ident)
+	if !ok || id.Name != name {
+		return false
+	}
+	_, isB := info.Uses[id].(*types.Builtin)
+	return isB
+}
+
+// encStmt translates one statement of the byte-builder idiom; ok=false hands the statement to the general translator.
+func (t *ptr) encStmt(s ast.Stmt) (string, bool) {
+	isErrIdent := func(e ast.Expr) bool {
+		id, ok := e.(*ast.Ident)
+		if !ok {
+			return false
+		}
+		if id.Name == "_" {
+			return true
+		}
+		o := t.info.ObjectOf(id)
+		return o != nil && isErrorType(o.Type())
+	}
+	switch x := s.(type) {
+	case *ast.IfStmt:
+		// if err != nil { return … }: err only ever comes from an encoder of the subset, which returns nil
+		if be, ok := x.Cond.(*ast.BinaryExpr); ok && x.Init == nil && x.Else == nil && be.Op == token.NEQ && isErrIdent(be.X) {
+			if id, ok := be.Y.(*ast.Ident); ok && id.Name == "nil" && len(x.Body.List) == 1 {
+				if _, ok := x.Body.List[0].(*ast.ReturnStmt); ok {
+					return "", true
+				}
+			}
+		}
+		bad("if inside an encoder")
+	case *ast.DeclStmt:
+		gd, ok := x.Decl.(*ast.GenDecl)
+		if ok && gd.Tok == token.VAR && len(gd.Specs) == 1 {
+			vs := gd.Specs[0].(*ast.ValueSpec)
+			if len(vs.Names) == 1 && len(vs.Values) == 0 && isBytesType(t.info.TypeOf(vs.Names[0])) {
+				t.fresh[vs.Names[0].Name] = false
+				return fmt.Sprintf("let %s : List UInt8 := []\n", lname(vs.Names[0].Name)), true
+			}
+		}
+	case *ast.IncDecStmt:
+		if id, ok := x.X.(*ast.Ident); ok && t.cursors[id.Name] && x.Tok == token.INC {
+			return fmt.Sprintf("let %s := %s + 1\n", lname(id.Name), lname(id.Name)), true
+		}
+	case *ast.ExprStmt:
+		c, ok := x.X.(*ast.CallExpr)
+		if !ok {
+			return "", false
+		}
+		if builtinCall(t.info, c, "copy") && len(c.Args) == 2 {
+			name, lo, hi := t.target(c.Args[0])
+			src := t.bytesExpr(c.Args[1])
+			if hi != "" {
+				return fmt.Sprintf("let %s ← Go.Buf.copyIn %s %s %s %s\n", name, name, lo, hi, src), true
+			}
+			return fmt.Sprintf("let %s ← Go.Buf.copy %s %s %s\n", name, name, lo, src), true
+		}
+		if se, ok := c.Fun.(*ast.SelectorExpr); ok && len(c.Args) == 2 {
+			if fn, ok := t.info.Uses[se.Sel].(*types.Func); ok && fn.Pkg() != nil && fn.Pkg().Path() == "encoding/binary" {
+				if in, ok := se.X.(*ast.SelectorExpr); ok && in.Sel.Name == "BigEndian" {
+					be := map[string]string{"PutUint16": "be16", "PutUint32": "be32", "PutUint64": "be64"}[se.Sel.Name]
+					if be == "" {
+						bad("binary.BigEndian.%s", se.Sel.Name)
+					}
+					name, lo, hi := t.target(c.Args[0])
+					val := t.expr(c.Args[1])
+					if hi != "" {
+						return fmt.Sprintf("let %s ← Go.Buf.putIn %s %s %s (%s %s)\n", name, name, lo, hi, be, val), true
+					}
+					return fmt.Sprintf("let %s ← Go.Buf.put %s %s (%s %s)\n", name, name, lo, be, val), true
+				}
+			}
+		}
+	case *ast.AssignStmt:
+		// x, err = r.Embedded.MarshalBinary()
+		if len(x.Lhs) == 2 && len(x.Rhs) == 1 && (x.Tok == token.ASSIGN || x.Tok == token.DEFINE) && isErrIdent(x.Lhs[1]) {
+			id, ok := x.Lhs[0].(*ast.Ident)
+			c, ok2 := x.Rhs[0].(*ast.CallExpr)
+			if ok && ok2 && isBytesType(t.info.TypeOf(id)) {
+				if se, ok := c.Fun.(*ast.SelectorExpr); ok && len(c.Args) == 0 {
+					if sel := t.info.Selections[se]; sel != nil && sel.Kind() == types.MethodVal && len(sel.Index()) == 1 {
+						if sn, ok := t.structName(t.info.TypeOf(se.X)); ok {
+							o, bare, _, _ := t.owner(t.info.TypeOf(se.X))
+							var m *methodInfo
+							if o == t {
+								savedEnc, savedCur, savedFresh, savedRes := t.enc, t.cursors, t.fresh, t.bytesRes
+								m = t.methodOnDemand(bare, se.Sel.Name)
+								t.enc, t.cursors, t.fresh, t.bytesRes = savedEnc, savedCur, savedFresh, savedRes
+							} else {
+								m = o.methods[bare+"."+se.Sel.Name]
+							}
+							if m == nil || !m.enc || m.mutates {
+								bad("call %s (not a translated non-mutating encoder)", nodeString(t.p.Fset, c.Fun))
+							}
+							t.fresh[id.Name] = false
+							return fmt.Sprintf("let %s ← (%s.%s %s)\n", lname(id.Name), sn, lname(se.Sel.Name), t.expr(se.X)), true
+						}
+					}
+				}
+			}
+			bad("two-valued assignment %s", nodeString(t.p.Fset, x))
+		}
+		if len(x.Lhs) != 1 || len(x.Rhs) != 1 {
+			return "", false
+		}
+		// x[i] = v
+		if ix, ok := x.Lhs[0].(*ast.IndexExpr); ok && x.Tok == token.ASSIGN {
+			name, _, _ := t.target(ix.X)
+			return fmt.Sprintf("let %s ← Go.Buf.set %s %s %s\n", name, name, t.natExpr(ix.Index), t.expr(x.Rhs[0])), true
+		}
+		id, ok := x.Lhs[0].(*ast.Ident)
+		if !ok {
+			return "", false
+		}
+		obj, _ := t.info.ObjectOf(id).(*types.Var)
+		if obj == nil || obj.Parent() == t.p.Types.Scope() {
+			return "", false
+		}
+		if isBytesType(obj.Type()) {
+			if x.Tok != token.ASSIGN && x.Tok != token.DEFINE {
+				bad("operator assignment to a buffer")
+			}
+			c, ok := x.Rhs[0].(*ast.CallExpr)
+			if !ok {
+				bad("buffer assigned from %s", nodeString(t.p.Fset, x.Rhs[0]))
+			}
+			if builtinCall(t.info, c, "make") && (len(c.Args) == 2 || len(c.Args) == 3) {
+				if len(c.Args) == 3 {
+					bad("make with capacity")
+				}
+				t.fresh[id.Name] = true
+				return fmt.Sprintf("let %s := Go.Buf.make %s\n", lname(id.Name), t.natExpr(c.Args[1])), true
+			}
+			if builtinCall(t.info, c, "append") && len(c.Args) >= 2 {
+				base := t.bytesExpr(c.Args[0])
+				t.fresh[id.Name] = false
+				if c.Ellipsis.IsValid() {
+					if len(c.Args) != 2 {
+						bad("append shape")
+					}
+					return fmt.Sprintf("let %s := %s ++ %s\n", lname(id.Name), base, t.bytesExpr(c.Args[1])), true
+				}
+				var els []string
+				for _, a := range c.Args[1:] {
+					els = append(els, t.expr(a))
+				}
+				return fmt.Sprintf("let %s := %s ++ [%s]\n", lname(id.Name), base, strings.Join(els, ", ")), true
+			}
+			bad("buffer assigned from %s", nodeString(t.p.Fset, x.Rhs[0]))
+		}
+		// cursors: every local of Go type int
+		if b, ok := obj.Type().Underlying().(*types.Basic); ok && b.Kind() == types.Int {
+			switch x.Tok {
+			case token.DEFINE:
+				t.cursors[id.Name] = true
+				return fmt.Sprintf("let %s : Nat := %s\n", lname(id.Name), t.natExpr(x.Rhs[0])), true
+			case token.ADD_ASSIGN:
+				if t.cursors[id.Name] {
+					return fmt.Sprintf("let %s := %s + %s\n", lname(id.Name), lname(id.Name), t.natExpr(x.Rhs[0])), true
+				}
+			}
+			bad("cursor statement %s", nodeString(t.p.Fset, x))
+		}
+	}
+	return "", false
+}
+
 func genPure(pk map[string]*packages.Package) string {
 	var sb strings.Builder
-	sb.WriteString("-- GENERATED by ofvextract from /repo; do not edit.\n-- Transliteration of straight-line integer helpers (Go int = Int64, uintN = UIntN, wrap-around arithmetic).\nimport OFV.Go.Ints\nnamespace OFV.Gen\nopen OFV\n")
+	sb.WriteString("-- GENERATED by ofvextract from /repo; do not edit.\n-- Transliteration of straight-line integer helpers (Go int = Int64, uintN = UIntN, wrap-around arithmetic).\nimport OFV.Go.Ints\nimport OFV.Go.Buf\nnamespace OFV.Gen\nopen OFV\n")
 	// phase 1: translate, package by package (a later package may register structs in an earlier one)
 	allPtr = map[string]*ptr{}
 	pdefs := map[string][]string{}
@@ -1050,7 +1435,7 @@ func genPure(pk map[string]*packages.Package) string {
 				if fd.Type.Results != nil {
 					nres = fd.Type.Results.NumFields()
 				}
-				t.methods[sp.recv+"."+sp.name] = &methodInfo{mutates: t.mutates, nres: nres}
+				t.methods[sp.recv+"."+sp.name] = &methodInfo{mutates: t.mutates, nres: nres, enc: t.enc}
 			}
 			rep.Translated = append(rep.Translated, key)
 			defs = append(defs, t.extra...)
@@ -1109,7 +1494,11 @@ func genPure(pk map[string]*packages.Package) string {
 					if nt, used := t.nested[n][f.Name()]; used {
 						// a struct-valued (or pointer-to-struct) field that translated code goes through; a pointer is
 						// taken to be non-nil
-						fmt.Fprintf(&sb, "  %s : %s := {}\n", lname(f.Name()), nt)
+						if strings.HasPrefix(nt, "List ") {
+							fmt.Fprintf(&sb, "  %s : %s := []\n", lname(f.Name()), nt)
+						} else {
+							fmt.Fprintf(&sb, "  %s : %s := {}\n", lname(f.Name()), nt)
+						}
 						cnt++
 					}
 					continue
